@@ -151,6 +151,23 @@ example : isJWSSerialization (" \n{\"payload\":1}".toList.map Char.toNat) = true
 example : isJWSSerialization ([0xC2, 0xA0, 0xE2, 0x80, 0xA8, 123]) = true := by decide                   -- NBSP, LINE SEPARATOR, `{`
 example : isJWSSerialization ([0xC2, 123]) = false := by decide                                        -- invalid UTF-8 is no space
 
+/-- NEGATION for the JSON branch (open finding C17:dagtx:json-serialisation-second-reference): the framing test puts NO demand on the bytes
+    of a JSON-led input. Any passing JSON-led input still passes with a space in front — other bytes, hence another reference, for the same
+    signed content. (jwx parses and verifies both: replayed on the real ParseTransaction by the `framingtx` leg.) `compact_reference_unique`
+    therefore cannot be extended to JSON-led inputs. -/
+theorem json_form_admits_whitespace_variants (a : Bytes) (h : jsonLead a = true) :
+    isJWSSerialization (32 :: a) = true ∧ jsonLead (32 :: a) = true ∧ (32 :: a) ≠ a := by
+  have hj : jsonLead (32 :: a) = true := by
+    unfold jsonLead at h ⊢
+    rw [trim_space_cons]
+    exact h
+  refine ⟨by unfold isJWSSerialization; rw [hj]; rfl, hj, ?_⟩
+  intro e
+  have := congrArg List.length e
+  simp at this
+
+example : jsonLead ("{\"payload\":\"x\"}".toList.map Char.toNat) = true := by decide
+
 /-! ### ParseTransaction's first two exits, and the tie to `dagTx` -/
 
 theorem parseTxFraming_pass {strict parses : Bool} {b : Bytes} (h : parseTxFraming strict parses b = .pass) :
